@@ -81,8 +81,12 @@ def code_for_number_token(name, value, location):
     assert value is not None
 
     try:
-        # Note: base 0 automatically handles prefixes like 0x.
-        result = int(value, 0)
+        if value.isascii() and value.isdigit():
+            # Note: base 0 refuses decimal numbers with leading zeros like "01".
+            result = int(value)
+        else:
+            # Note: base 0 automatically handles prefixes like 0x.
+            result = int(value, 0)
         # Ensure that the number can be shown in messages. Python refuses to convert integers
         # with several thousand digits to text, which for example can be reached using hex numbers.
         str(result)
